@@ -21,8 +21,8 @@ CODE = {PREOP: 127, OP: 5, STOP: 4}
 
 def make_cfg(rng):
     nid = rng.choice([1, 3, 127])
-    freq = rng.choice([100, 1000, 1000, 10000])
-    ms_choices = [m for m in (10, 20, 30, 50, 100, 250, 1000, 1, 5) if (m * freq) % 1000 == 0]
+    freq = rng.choice([100, 1000, 1000, 10000, 1500, 2500, 32768])      # incl. clocks that are no multiple of 1 kHz
+    ms_choices = [m for m in (10, 20, 30, 50, 100, 250, 1000, 1, 5, 2, 4, 6, 125, 500) if (m * freq) % 1000 == 0 and m * freq // 1000 <= 4000]
     hb0 = rng.choice([0] + ms_choices)
     cfg = Config(nodeid=nid, freq=freq, tmrnum=16)
     # optional objects (1005h/1006h, 1016h, 1014h) are missing in some dictionaries
